@@ -23,17 +23,18 @@ import (
 // ---- C17: Concurrent Store use keeps Head monotone and readers never see torn state ----
 
 type c17P struct {
-	Cfg     Cfg       `json:"cfg"`
-	Base    int       `json:"base"`    // 1..Base stored and synced before the concurrent phase
-	N       int       `json:"n"`       // highest height
-	Writers [][][]int `json:"writers"` // per writer: list of batches (heights)
-	Readers int       `json:"readers"`
-	Iter    int       `json:"iter"`     // reads per reader
-	DelTo   int       `json:"del_to"`   // >0: a deleter runs DeleteRange(Tail, DelTo) (DelTo <= Base)
-	DsYield uint64    `json:"ds_yield"` // !=0: PRNG virtual delays inside datastore operations
-	AtHead  bool      `json:"at_head"`  // the deleter deletes everything below the head it observes (to == current Head)
-	Sched   uint64    `json:"sched"`    // PRNG seed of the yield-point delays (0 = none)
-	PaceUs  int       `json:"pace_us"`  // max virtual pause between steps of a client
+	Cfg       Cfg       `json:"cfg"`
+	Base      int       `json:"base"`    // 1..Base stored and synced before the concurrent phase
+	N         int       `json:"n"`       // highest height
+	Writers   [][][]int `json:"writers"` // per writer: list of batches (heights)
+	Readers   int       `json:"readers"`
+	Iter      int       `json:"iter"`        // reads per reader
+	DelTo     int       `json:"del_to"`      // >0: a deleter runs DeleteRange(Tail, DelTo) (DelTo <= Base)
+	DsYield   uint64    `json:"ds_yield"`    // !=0: PRNG virtual delays inside datastore operations
+	AtHead    bool      `json:"at_head"`     // the deleter deletes everything below the head it observes (to == current Head)
+	SlowPtrUs int       `json:"slow_ptr_us"` // >0: datastore writes of the head/tail pointer keys take this long (virtual)
+	Sched     uint64    `json:"sched"`       // PRNG seed of the yield-point delays (0 = none)
+	PaceUs    int       `json:"pace_us"`     // max virtual pause between steps of a client
 }
 
 type hop struct {
@@ -106,6 +107,19 @@ func TestC17(t *testing.T) {
 		}
 		mon.Emit(r, "concurrent", p, "concurrent")
 	}
+	// targeted: a tail-side deletion reaching exactly up to the head it observes, with slow pointer writes,
+	// while a writer keeps appending single headers and readers sample Head() densely
+	for i := 0; i < r.N(60, 600); i++ {
+		base := 6 + rng.Intn(6)
+		p := c17P{Cfg: Cfg{SC: 64, IC: 64, WB: []int{1, 2, 4, 64}[i%4], Flavour: []string{"plain", "ctx"}[(i/4)%2]}, Base: base, N: base + 6 + rng.Intn(5),
+			Readers: 3, Iter: 14, PaceUs: []int{150, 400, 900}[rng.Intn(3)], DelTo: base, AtHead: true, SlowPtrUs: []int{800, 2500, 6000}[rng.Intn(3)], Sched: uint64(rng.Intn(2) * (1 + rng.Intn(1<<20)))}
+		var bs [][]int
+		for h := base + 1; h <= p.N; h++ {
+			bs = append(bs, []int{h})
+		}
+		p.Writers = [][][]int{bs}
+		mon.Emit(r, "concurrent", p, "concurrent")
+	}
 	r.Finish()
 }
 
@@ -167,9 +181,16 @@ func c17Run(c *mon.Case, p c17P) {
 		}
 		_ = e.sync()
 		defer ctl.Install()()
-		if p.DsYield != 0 {
+		if p.DsYield != 0 || p.SlowPtrUs > 0 {
 			var n atomic.Uint64
 			e.d.Yield = func(op, key string) {
+				if p.SlowPtrUs > 0 && (op == "put" || op == "put-return") && (strings.HasSuffix(key, "/head") || strings.HasSuffix(key, "/tail")) {
+					time.Sleep(time.Duration(p.SlowPtrUs) * time.Microsecond)
+					return
+				}
+				if p.DsYield == 0 {
+					return
+				}
 				x := (n.Add(1) + p.DsYield) * 0x9E3779B97F4A7C15
 				if d := []time.Duration{0, 0, 0, time.Microsecond, 20 * time.Microsecond, 300 * time.Microsecond, 2 * time.Millisecond}[(x>>40)%7]; d > 0 {
 					time.Sleep(d)
@@ -402,7 +423,7 @@ func c17Run(c *mon.Case, p c17P) {
 		if p.AtHead {
 			tag += "-at-head"
 		}
-		c.Class("writers=%d readers=%d %s wb=%d %s overlap=%v pace=%d sched=%v dsyield=%v", len(p.Writers), p.Readers, tag, p.Cfg.WB, p.Cfg.Flavour, overl > 0, p.PaceUs, p.Sched != 0, p.DsYield != 0)
+		c.Class("writers=%d readers=%d %s wb=%d %s overlap=%v pace=%d sched=%v dsyield=%v slowptr=%d", len(p.Writers), p.Readers, tag, p.Cfg.WB, p.Cfg.Flavour, overl > 0, p.PaceUs, p.Sched != 0, p.DsYield != 0, p.SlowPtrUs)
 		_ = strings.Join
 	})
 }
